@@ -38,6 +38,10 @@ func (self ValueObject) Display() (string, *Interrupt) {
 }
 
 func (self ValueObject) IsEqual(other Value) (bool, *Interrupt) {
+	// values of different kinds meet inside any-objects and `any` lists: they are not equal
+	if other.Kind() != self.Kind() {
+		return false, nil
+	}
 	otherObj := other.(ValueObject)
 
 	// Both objects must have the same set of keys, otherwise a subset would be equal to its superset.
